@@ -84,7 +84,17 @@ func (p *Prog) errorUses(fn *ssa.Function, ev ssa.Value) errUse {
 						walk(ld)
 					}
 				case *ssa.FreeVar:
-					u.PassedOn = true
+					// a store into a variable of the enclosing function: if this closure is deferred,
+					// the value only reaches the caller when that variable is a named result (read
+					// after the deferred calls ran); an ordinary local was already copied into the
+					// return value before the defer ran
+					if isDeferredClosure(fn) {
+						if al, ok := rootCell(a).(*ssa.Alloc); ok && readAfterDefers(al) {
+							u.Returned = true
+						}
+					} else {
+						u.PassedOn = true
+					}
 				case *ssa.FieldAddr, *ssa.IndexAddr:
 					u.PassedOn = true
 				}
@@ -986,3 +996,41 @@ func reachingLoads(st *ssa.Store, cell *ssa.Alloc) []ssa.Value {
 	return out
 }
 
+
+// isDeferredClosure: fn is a closure that its parent defers.
+func isDeferredClosure(fn *ssa.Function) bool {
+	for _, mc := range closureSites(fn) {
+		if refs := mc.Referrers(); refs != nil {
+			for _, r := range *refs {
+				if _, ok := r.(*ssa.Defer); ok {
+					return true
+				}
+			}
+		}
+	}
+	return false
+}
+
+// readAfterDefers: the cell is loaded after a RunDefers and that load is returned
+// (the shape of a named result in a function with defers).
+func readAfterDefers(al *ssa.Alloc) bool {
+	fn := al.Parent()
+	for _, b := range fn.Blocks {
+		seenRun := false
+		for _, in := range b.Instrs {
+			if _, ok := in.(*ssa.RunDefers); ok {
+				seenRun = true
+			}
+			if ld, ok := in.(*ssa.UnOp); ok && seenRun && ld.Op == token.MUL && ld.X == ssa.Value(al) {
+				if refs := ld.Referrers(); refs != nil {
+					for _, r := range *refs {
+						if _, ok := r.(*ssa.Return); ok {
+							return true
+						}
+					}
+				}
+			}
+		}
+	}
+	return false
+}
